@@ -30,11 +30,67 @@ package client
 //@   ensures @stripped [C08] forall i :: 0 <= i && i < len(proofs) ==> result[i].DLEQ == nil && result[i].Amount == proofs[i].Amount && result[i].Id == proofs[i].Id && result[i].Secret == proofs[i].Secret && result[i].C == proofs[i].C && result[i].Witness == proofs[i].Witness
 //@   loop range(proofs) invariant 0 <= i && i <= len(proofs) && len(inputs) == len(proofs) && (forall j :: 0 <= j && j < i ==> inputs[j].DLEQ == nil && inputs[j].Amount == proofs[j].Amount && inputs[j].Id == proofs[j].Id && inputs[j].Secret == proofs[j].Secret && inputs[j].C == proofs[j].C && inputs[j].Witness == proofs[j].Witness)
 
+// Ghost effect of every request that has outputs signed (C19): all counters the
+// wallet derived outputs from so far may now be signed (see prelude module walletdb).
+//@ macro signedraised() = (forall id Str :: wal.signedupto[id] == (old(wal.signedupto)[id] >= wal.derivedupto[id] ? old(wal.signedupto)[id] : wal.derivedupto[id]))
+
+//@ func PostMintBolt11
+//@   tags C19
+//@   modifies wal.signedupto
+//@   assumes signedraised()
+
 // what is marshalled (= sent) carries no DLEQ proof on any input
 //@ func PostSwap
-//@   tags C08
+//@   tags C08 C19
+//@   modifies wal.signedupto
+//@   assumes signedraised()
 //@   calls json.Marshal asserts @nodleq [C08] typeis(v, nut03.PostSwapRequest) && (forall i :: 0 <= i && i < len(unbox(v, nut03.PostSwapRequest).Inputs) ==> unbox(v, nut03.PostSwapRequest).Inputs[i].DLEQ == nil)
 
 //@ func PostMeltBolt11
-//@   tags C08
+//@   tags C08 C19
+//@   modifies wal.signedupto
+//@   assumes signedraised()
 //@   calls json.Marshal asserts @nodleq [C08] typeis(v, nut05.PostMeltBolt11Request) && (forall i :: 0 <= i && i < len(unbox(v, nut05.PostMeltBolt11Request).Inputs) ==> unbox(v, nut05.PostMeltBolt11Request).Inputs[i].DLEQ == nil)
+
+// Requests that have nothing signed: plain HTTP exchanges, no effect on the
+// wallet's counters (assumed; their bodies are net/http and encoding/json).
+//@ func GetMintInfo
+//@   trusted
+//@   pure
+//@   fresh
+//@ func GetActiveKeysets
+//@   trusted
+//@   pure
+//@   fresh
+//@ func GetAllKeysets
+//@   trusted
+//@   pure
+//@   fresh
+//@ func GetKeysetById
+//@   trusted
+//@   pure
+//@   fresh
+//@ func PostMintQuoteBolt11
+//@   trusted
+//@   pure
+//@   fresh
+//@ func GetMintQuoteState
+//@   trusted
+//@   pure
+//@   fresh
+//@ func PostMeltQuoteBolt11
+//@   trusted
+//@   pure
+//@   fresh
+//@ func GetMeltQuoteState
+//@   trusted
+//@   pure
+//@   fresh
+//@ func PostCheckProofState
+//@   trusted
+//@   pure
+//@   fresh
+//@ func PostRestore
+//@   trusted
+//@   pure
+//@   fresh
